@@ -220,14 +220,581 @@ def c04_checks(repo: Repo, tier: str, res: CheckResult, eng, seed: int) -> None:
     res.count("ESC.generated-model-loaders", n, 200)
 
 
-def c19_checks(repo: Repo, tier: str, res: CheckResult, seed: int) -> None:
-    """hostile identifier / key family on emitted programs (filled in with the C03 translation validation)"""
-    return
 
 
-def c06_checks(repo: Repo, tier: str, res: CheckResult, seed: int) -> None:
-    return
 
 
-def c05_checks(repo: Repo, tier: str, res: CheckResult, seed: int) -> None:
-    return
+# ================================================================================================ translation validation
+from .genaudit import (DumperSummary, FieldRead, LoaderSummary, audit_dumper, audit_loader, crown_fields, crown_nodes,
+                       crown_nones)
+
+_AUDIT_CACHE: Dict[Tuple[str, str, int, str], list] = {}
+
+
+def audited(repo: Repo, tier: str, seed: int, kind: str):
+    key = (str(repo.root), tier, seed, kind)
+    if key not in _AUDIT_CACHE:
+        recs = run_child(repo, tier, seed, kind)
+        progs = parse_programs(recs, kind)
+        out = []
+        for p in progs:
+            summ = audit_loader(p.fn) if kind == "loader" else audit_dumper(p.fn)
+            out.append((p, summ))
+        _AUDIT_CACHE[key] = out
+    return _AUDIT_CACHE[key]
+
+
+def _suffix_of(var: str) -> str:
+    return var.split("_", 1)[1] if "_" in var and var.split("_")[-1].isdigit() else ""
+
+
+def _gen_finding(prop: str, rule: str, prog: GenProg, lineno: int, construct: str, why: str) -> Finding:
+    gfile, gfunc, gline = prog.origin_key(lineno) if lineno else ("generated:" + prog.kind, "?", 0)
+    return Finding(prop, rule, gfile, gfunc, abstract_construct(construct)[:200],
+                   f"generated model {prog.kind} ({prog.ident}): {why} (emitted by {gfile}:{gfunc}:{gline})",
+                   gline, extra={"program": prog.ident, "line": lineno})
+
+
+def c03_loader_checks(repo: Repo, tier: str, res: CheckResult, seed: int, prop: str = "C03") -> int:
+    n = 0
+    disagreements = 0
+    for prog, S in audited(repo, tier, seed, "loader"):
+        rec = prog.rec
+        crown = rec["crown"]
+        fields = {f["id"]: f for f in rec["fields"]}
+        oracle = crown_fields(crown)
+        nodes = crown_nodes(crown)
+        n += 1
+        res.evaluated("G:" + prog.ident, True)
+        for msg, line in S.problems:
+            raise AnalysisError(f"cannot audit emitted loader {prog.ident}: {msg} (line {line})")
+        move = rec.get("extra_move")
+        targets = move.split(":")[1].split(",") if move and move.startswith("targets:") else []
+        # (1) every field is read from its crown path, once
+        by_field: Dict[str, List[FieldRead]] = {}
+        for r in S.reads:
+            by_field.setdefault(r.field_id, []).append(r)
+        for fid, path in oracle.items():
+            rs = [r for r in by_field.get(fid, []) if r.via in ("loader", "as-is")]
+            disagreements += 1
+            if len(rs) != 1:
+                res.add(_gen_finding(prop, "TV.field-read-count", prog, rs[0].lineno if rs else 0, f"field {fid}: {len(rs)} reads",
+                                     f"field `{fid}` is extracted {len(rs)} times instead of once"))
+                continue
+            r = rs[0]
+            if r.path != path:
+                res.add(_gen_finding(prop, "TV.field-read-path", prog, r.lineno, f"field read at {r.path!r} expected {path!r}".replace(fid, "F"),
+                                     f"field `{fid}` is loaded from path {list(r.path) if r.path is not None else None} but the "
+                                     f"crown places it at {list(path)}"))
+            expect_asis = fid in rec.get("as_is", [])
+            if (r.via == "as-is") != expect_asis:
+                res.add(_gen_finding(prop, "TV.field-loader", prog, r.lineno, f"{r.via}",
+                                     f"field `{fid}` is {'not ' if expect_asis else ''}passed through its field loader"))
+            f = fields[fid]
+            packed = f["kind"] == "O" and fid not in targets
+            want_target = f"packed:{f['param']}" if packed else f"f_{fid}"
+            if r.target != want_target:
+                res.add(_gen_finding(prop, "TV.field-target", prog, r.lineno, f"{r.target} vs {want_target}".replace(fid, "F"),
+                                     f"loaded value of field `{fid}` is stored into {r.target}, expected {want_target}"))
+        for fid in by_field:
+            if fid not in oracle and fid not in targets and fid != "?":
+                res.add(_gen_finding(prop, "TV.unknown-field-read", prog, by_field[fid][0].lineno, "read of unmapped field",
+                                     f"field `{fid}` is not in the crown but is extracted"))
+        # (2) node variables and key sets
+        path_to_var = {p: v for v, p in S.node_vars.items()}
+        path_to_var[()] = "data"
+        ns = rec["namespace"]
+        for path, node in nodes.items():
+            if path not in path_to_var:
+                if node["map"]:
+                    res.add(_gen_finding(prop, "TV.node-missing", prog, 0, f"node {len(path)}", f"crown node at {list(path)} is never extracted"))
+                continue
+            if node["t"] != "dict":
+                continue
+            suffix = _suffix_of(path_to_var[path])
+            kk = "known_keys" + ("_" + suffix if suffix else "")
+            rk = "required_keys" + ("_" + suffix if suffix else "")
+            want_known = sorted(node["map"].keys())
+            want_req = sorted(k for k, v in node["map"].items() if not (v["t"] == "field" and fields[v["id"]]["kind"] != "R"))
+            disagreements += 2
+            for name, want in ((kk, want_known), (rk, want_req)):
+                got = ns.get(name, {}).get("items")
+                if got is None:
+                    if want or name.startswith("known"):
+                        res.add(_gen_finding(prop, "TV.key-set", prog, 0, f"{name.split('_')[0]} keys constant missing",
+                                             f"constant `{name}` for crown node {list(path)} is missing"))
+                elif sorted(got) != want:
+                    res.add(_gen_finding(prop, "TV.key-set", prog, 0, f"{name.rsplit('_', 1)[0] if suffix else name} mismatch",
+                                         f"`{name}` = {sorted(got)} but the crown node {list(path)} has "
+                                         f"{'keys' if name.startswith('known') else 'required keys'} {want}"))
+        # (3)+(5) extra policies and length checks
+        var_to_path = {v: p for p, v in path_to_var.items()}
+        collect_any = any(nd.get("extra") == "collect" for nd in nodes.values())
+        for path, node in nodes.items():
+            var = path_to_var.get(path)
+            if var is None:
+                continue
+            suffix = _suffix_of(var)
+            kk = "known_keys" + ("_" + suffix if suffix else "")
+            ev = "extra" + ("_" + suffix if suffix else "")
+            pol = node.get("extra")
+            disagreements += 1
+            if node["t"] == "dict":
+                forb = [f for f in S.forbid_checks if f[0] == var]
+                cop = [c for c in S.extra_copies if c[1] == var]
+                if pol == "forbid":
+                    if len(forb) != 1 or forb[0][1] != kk:
+                        res.add(_gen_finding(prop, "TV.extra-forbid", prog, forb[0][2] if forb else 0, "forbid check",
+                                             f"node {list(path)} forbids extra keys but the program does not compare "
+                                             f"set({var}) - {kk} exactly once ({forb})"))
+                    elif not any(r[0] == "ExtraFieldsLoadError" and r[1] == path for r in S.rejects):
+                        res.add(_gen_finding(prop, "TV.extra-forbid", prog, forb[0][2], "forbid error",
+                                             f"node {list(path)}: the unknown keys are computed but no ExtraFieldsLoadError "
+                                             f"for this node is raised/collected"))
+                    if cop:
+                        res.add(_gen_finding(prop, "TV.extra-policy-mixed", prog, cop[0][3], "copy under forbid",
+                                             f"node {list(path)} forbids extras but also copies them"))
+                elif pol == "collect":
+                    want_ks = f"set({var}) - {kk}"
+                    if len(cop) != 1 or cop[0][0] != ev or cop[0][2] != want_ks:
+                        res.add(_gen_finding(prop, "TV.extra-collect", prog, cop[0][3] if cop else 0, "collect loop",
+                                             f"node {list(path)} collects extras: expected exactly one item-wise copy of "
+                                             f"`{want_ks}` into `{ev}`, found {[(c[0], c[2]) for c in cop]}"))
+                    if S.extra_inits.get(ev) != "{}":
+                        res.add(_gen_finding(prop, "TV.extra-collect", prog, 0, "extra init",
+                                             f"`{ev}` must be created as a fresh `{{}}` in the function body, found "
+                                             f"{S.extra_inits.get(ev)!r}"))
+                    if forb:
+                        res.add(_gen_finding(prop, "TV.extra-policy-mixed", prog, forb[0][2], "forbid under collect",
+                                             f"node {list(path)} collects extras but also rejects them"))
+                else:
+                    if forb or cop:
+                        res.add(_gen_finding(prop, "TV.extra-skip", prog, (forb or cop)[0][-1], "extra code under skip",
+                                             f"node {list(path)} must ignore unknown keys but the program "
+                                             f"{'rejects' if forb else 'copies'} them"))
+            else:
+                N = len(node["map"])
+                lc = sorted((op, k) for v, op, k, _ in S.len_checks if v == var)
+                want = sorted([("NotEq", N), ("Lt", N)]) if pol == "forbid" else [("Lt", N)]
+                if lc != want:
+                    res.add(_gen_finding(prop, "TV.list-length", prog, next((l for v, _, _, l in S.len_checks if v == var), 0),
+                                         f"len checks {lc} expected {want}".replace(str(N), "N"),
+                                         f"list node {list(path)} with {N} items and extra policy {pol}: length checks are {lc}, "
+                                         f"expected {want}"))
+        # no policy code for nodes that do not exist
+        for f in S.forbid_checks:
+            if f[0] not in var_to_path:
+                res.add(_gen_finding(prop, "TV.extra-forbid", prog, f[2], "forbid on unknown node", f"forbid check on `{f[0]}`"))
+        # (6) extras symmetry: a child's extras may be linked into the parent only when there is something in them
+        for parent, key, child, cond, line in S.extra_links:
+            disagreements += 1
+            if not cond:
+                res.add(_gen_finding(prop, "TV.extra-structural-key", prog, line, "extra_N['K'] = extra_N",
+                                     f"`{parent}[{key!r}] = {child}` is executed unconditionally: the mapping delivered to the "
+                                     "constructor contains the structural key even when the input has no unknown keys at that "
+                                     "node (kwargs gets a spurious entry such as {'n': {}})"))
+        if sampled_ok(res):
+            res.sample({"program": prog.ident, "field_paths": {k: list(v) for k, v in oracle.items()},
+                        "reads": [(r.field_id, list(r.path) if r.path is not None else None, r.via, r.target) for r in S.reads],
+                        "verdict": "audited"}, limit=20)
+    res.coverage["programs"] = res.coverage.get("programs", 0) + n
+    res.coverage["disagreements_checked"] = res.coverage.get("disagreements_checked", 0) + disagreements
+    return n
+
+
+def sampled_ok(res: CheckResult) -> bool:
+    return sum(1 for s in res.samples if isinstance(s, dict) and "program" in s) < 3
+
+
+SIEVE_EXPECT = {"dv": "{x} != 7", "dvn": "{x} is not None", "df": "{x} != []"}
+
+
+def c03_dumper_checks(repo: Repo, tier: str, res: CheckResult, seed: int, prop: str = "C03") -> int:
+    n = 0
+    disagreements = 0
+    for prog, S in audited(repo, tier, seed, "dumper"):
+        rec = prog.rec
+        crown = rec["crown"]
+        fields = {f["id"]: f for f in rec["fields"]}
+        n += 1
+        res.evaluated("G:" + prog.ident, True)
+        for msg, line in S.problems:
+            res.add(_gen_finding(prop, "TV.dumper-shape", prog, line, msg, f"emitted dumper has an unexpected shape: {msg}"))
+        oracle = crown_fields(crown)
+        nones = crown_nones(crown)
+        nodes = crown_nodes(crown)
+        ns = rec["namespace"]
+        sieves: Dict[Tuple, str] = {}
+        for path, node in nodes.items():
+            for k, kind in (node.get("sieves") or {}).items():
+                sieves[path + (k,)] = kind
+        # node kinds
+        for path, node in nodes.items():
+            disagreements += 1
+            got = S.node_kinds.get(path)
+            if got != node["t"]:
+                res.add(_gen_finding(prop, "TV.dumper-node", prog, 0, f"node kind {got} expected {node['t']}",
+                                     f"crown node {list(path)} is a {node['t']} but the program builds {got}"))
+        # fields
+        for fid, path in oracle.items():
+            disagreements += 1
+            ent = S.tree.get(path)
+            optional = fields[fid]["kind"] in ("O", "OI")
+            want_kind = "opt-field" if optional else "field"
+            if ent is None:
+                res.add(_gen_finding(prop, "TV.field-write-path", prog, 0, "field not written",
+                                     f"field `{fid}` is never written to its crown path {list(path)}"))
+                continue
+            if ent[0] != want_kind or ent[1] != fid:
+                res.add(_gen_finding(prop, "TV.field-write-path", prog, ent[3], f"{ent[0]} written, expected {want_kind}",
+                                     f"crown path {list(path)} holds ({ent[0]}, {ent[1]}) but the crown assigns field `{fid}` to it"))
+                continue
+            # source of the value
+            src = S.field_sources.get(f"opt:{fid}" if optional else f"f_{fid}")
+            acc_want = ("item:" + repr(fid)) if fields[fid]["kind"] in ("RI", "OI") else ("attr:" + fid)
+            if src is None:
+                res.add(_gen_finding(prop, "TV.field-source", prog, ent[3], "no extraction", f"value of field `{fid}` is never extracted"))
+            else:
+                acc = src[1]
+                if acc.startswith("raw:"):
+                    raw = S.field_sources.get("r_" + acc[4:])
+                    acc = raw[1] if raw else acc
+                if acc != acc_want:
+                    res.add(_gen_finding(prop, "TV.field-source", prog, src[2], f"{acc.split(':')[0]} access",
+                                         f"field `{fid}` is read through `{acc}` but its accessor is `{acc_want}`"))
+                if src[3] == (fid in rec.get("as_is", [])):
+                    res.add(_gen_finding(prop, "TV.field-dumper", prog, src[2], "dumper application",
+                                         f"field `{fid}` is {'not ' if not src[3] else ''}passed through its dumper"))
+            # sieve condition
+            kind = sieves.get(path)
+            x = "value" if optional else f"f_{fid}"
+            if kind is None:
+                if ent[2] is not None:
+                    res.add(_gen_finding(prop, "TV.sieve", prog, ent[3], "conditional without sieve",
+                                         f"key {path[-1]!r} has no sieve but is written only when `{ent[2]}`"))
+            else:
+                disagreements += 1
+                if ent[2] is None:
+                    res.add(_gen_finding(prop, "TV.sieve", prog, ent[3], "unconditional sieved key",
+                                         f"key {path[-1]!r} is sieved ({kind}) but written unconditionally"))
+                elif kind in SIEVE_EXPECT:
+                    if ent[2] != SIEVE_EXPECT[kind].format(x=x):
+                        res.add(_gen_finding(prop, "TV.sieve", prog, ent[3], f"sieve condition {abstract_construct(ent[2])}",
+                                             f"key {path[-1]!r} (sieve default kind {kind}) is written when `{ent[2]}`, expected "
+                                             f"`{SIEVE_EXPECT[kind].format(x=x)}` (omit exactly the values equal to the default)"))
+                elif kind == "dvo":
+                    mt = re.fullmatch(rf"{re.escape(x)} != (dfl_\w+)", ent[2])
+                    if not mt or ns.get(mt.group(1), {}).get("tag") != f"sievedefault:{path[-1]}":
+                        res.add(_gen_finding(prop, "TV.sieve", prog, ent[3], "sieve default constant",
+                                             f"key {path[-1]!r}: condition `{ent[2]}` does not compare with the captured default "
+                                             f"object of this key"))
+                elif kind == "custom":
+                    mt = re.fullmatch(rf"(sieve_\w+)\({re.escape(x)}\)", ent[2])
+                    if not mt or ns.get(mt.group(1), {}).get("tag") != f"sieve:{path[-1]}":
+                        res.add(_gen_finding(prop, "TV.sieve", prog, ent[3], "custom sieve call",
+                                             f"key {path[-1]!r}: condition `{ent[2]}` does not call the sieve of this key"))
+        # placeholders
+        for path, none in nones.items():
+            disagreements += 1
+            ent = S.tree.get(path)
+            want = "[]" if none.get("ph") == "factory" else "None"
+            if ent is None or ent[0] != "placeholder" or ent[1] != want:
+                res.add(_gen_finding(prop, "TV.placeholder", prog, ent[3] if ent else 0, "placeholder",
+                                     f"gap at {list(path)} must be filled with the placeholder `{want}`, found {ent[:2] if ent else None}"))
+        # nothing else is written
+        for path, ent in S.tree.items():
+            if path not in oracle.values() and path not in nones:
+                res.add(_gen_finding(prop, "TV.unexpected-key", prog, ent[3], "unexpected key",
+                                     f"the program writes {ent[:2]} at {list(path)} which is not in the crown"))
+        # return / extras
+        disagreements += 1
+        move = rec.get("extra_move")
+        if move is None:
+            if S.return_expr != "result":
+                res.add(_gen_finding(prop, "TV.dumper-return", prog, 0, f"return {S.return_expr}",
+                                     f"without extra_move the dumper must return the root node, returns `{S.return_expr}`"))
+        else:
+            if S.return_expr != "{**result, **extra}":
+                res.add(_gen_finding(prop, "TV.dumper-return", prog, 0, f"return {S.return_expr}",
+                                     f"with extra_move the dumper must merge the extracted extras over the root node, returns "
+                                     f"`{S.return_expr}`"))
+            want_src = "extractor(data)" if move == "extract" else "field:e:attr:e"
+            if S.extra_source != want_src:
+                res.add(_gen_finding(prop, "TV.extra-source", prog, 0, f"extra = {S.extra_source}",
+                                     f"extras must come from `{want_src}`, found `{S.extra_source}`"))
+            nested = [p for p, nd in nodes.items() if p and nd["t"] == "dict" and all(isinstance(k, str) for k in p)]
+            if nested and crown["t"] == "dict" and S.return_expr == "{**result, **extra}":
+                res.add(Finding(prop, "TV.extra-shallow-merge", "adaptix/_internal/morphing/model/dumper_gen.py",
+                                "BuiltinModelDumperGen.produce_code", "return {**result, **extra} with nested dict nodes",
+                                f"generated model dumper ({prog.ident}): extras are merged with a shallow `{{**result, **extra}}` "
+                                f"although the crown has nested dict nodes {nested[:2]}: the loader of the same layout collects "
+                                "extras of a nested node under that node's key, so dumping them back replaces the whole nested "
+                                "node and the fields mapped into it are lost", 0, extra={"program": prog.ident}))
+        if sampled_ok(res) or (n % 97 == 0 and len(res.samples) < 8):
+            res.sample({"program": prog.ident, "written": {str(list(p)): e[:3] for p, e in S.tree.items()},
+                        "return": S.return_expr, "verdict": "audited"}, limit=20)
+    res.coverage["programs"] = res.coverage.get("programs", 0) + n
+    res.coverage["disagreements_checked"] = res.coverage.get("disagreements_checked", 0) + disagreements
+    return n
+
+
+# ================================================================================================ C08 on tier G
+def expected_ctor_plan(rec: dict) -> Tuple[List[str], Dict[str, str], bool]:
+    """(positional value names, {keyword: value name}, packed?) the documented assembly prescribes"""
+    fields = {f["id"]: f for f in rec["fields"]}
+    skipped = set(rec.get("skipped", []))
+    move = rec.get("extra_move") or ""
+    targets = move.split(":")[1].split(",") if move.startswith("targets:") else []
+    pos: List[str] = []
+    kw: Dict[str, str] = {}
+    has_skipped = False
+    packed = False
+    for f in rec["fields"]:
+        fid = f["id"]
+        if f["kind"] == "O" and fid not in targets:
+            packed = True   # `**packed_fields` is emitted as soon as the shape has such a field (empty when skipped)
+        if fid in skipped:
+            has_skipped = True
+            continue
+        if f["kind"] == "O" and fid not in targets:
+            continue
+        if f["param_kind"] == "W" or has_skipped:
+            kw[f["param"]] = f"f_{fid}"
+        else:
+            pos.append(f"f_{fid}")
+    return pos, kw, packed
+
+
+DEFAULT_EXPECT = {"DV": "7", "DVN": "None", "DF": "[]"}
+
+
+def c08_checks(repo: Repo, tier: str, res: CheckResult, seed: int) -> int:
+    n = 0
+    for prog, S in audited(repo, tier, seed, "loader"):
+        rec = prog.rec
+        n += 1
+        res.evaluated("G:ctor:" + prog.ident, True)
+        ns = rec["namespace"]
+        move = rec.get("extra_move")
+        # exactly one constructor call, on the single success path
+        if len(S.ctor_calls) != 1:
+            res.add(_gen_finding("C08", "CTOR.exactly-once", prog, S.ctor_calls[0].lineno if S.ctor_calls else 0,
+                                 f"{len(S.ctor_calls)} constructor calls", f"the program contains {len(S.ctor_calls)} constructor "
+                                 "calls: the model's constructor must run exactly once per loaded object"))
+            continue
+        call = S.ctor_calls[0]
+        if ns.get("constructor", {}).get("tag") != "constructor":
+            res.add(_gen_finding("C08", "CTOR.real-constructor", prog, call.lineno, "constructor binding",
+                                 "`constructor` is not bound to the shape's constructor"))
+        last = prog.fn.body[-1]
+        is_last = (isinstance(last, ast.Return) and (last.value is call or (isinstance(last.value, ast.Name) and last.value.id == "result")))
+        if not is_last:
+            res.add(_gen_finding("C08", "CTOR.position", prog, call.lineno, "constructor not at the end",
+                                 "the constructor call is not the final step of the function (it must follow the error epilogue)"))
+        pos_want, kw_want, packed = expected_ctor_plan(rec)
+        pos_got = [norm(a) for a in call.args]
+        kw_got: Dict[str, str] = {}
+        stars: List[str] = []
+        for k in call.keywords:
+            if k.arg is not None:
+                kw_got[k.arg] = norm(k.value)
+            elif isinstance(k.value, ast.Dict) and len(k.value.keys) == 1 and isinstance(k.value.keys[0], ast.Constant):
+                kw_got[k.value.keys[0].value] = norm(k.value.values[0])
+            else:
+                stars.append(norm(k.value))
+        if pos_got != pos_want:
+            res.add(_gen_finding("C08", "CTOR.positional", prog, call.lineno, f"positional {len(pos_got)} expected {len(pos_want)}",
+                                 f"positional arguments are {pos_got}, expected {pos_want}: a parameter is passed positionally "
+                                 "after a skipped one, out of order, or a keyword-only parameter positionally"))
+        if kw_got != kw_want:
+            res.add(_gen_finding("C08", "CTOR.keyword", prog, call.lineno, "keyword arguments differ",
+                                 f"keyword arguments are {kw_got}, expected {kw_want} (parameter names, not field ids)"))
+        stars_want = (["packed_fields"] if packed else []) + (["extra"] if move == "kwargs" else [])
+        if stars != stars_want:
+            res.add(_gen_finding("C08", "CTOR.unpacking", prog, call.lineno, f"** {stars} expected {stars_want}",
+                                 f"`**` unpackings are {stars}, expected {stars_want}"))
+        if move == "saturate":
+            ok = len(S.saturator_calls) == 1 and [norm(a) for a in S.saturator_calls[0].args] == ["result", "extra"] \
+                and ns.get("saturator", {}).get("tag") == "saturator"
+            if not ok:
+                res.add(_gen_finding("C08", "CTOR.saturator", prog, call.lineno, "saturator call",
+                                     "the saturator must be called once with (result, extra)"))
+        # defaults: absent optional field with default gets the true default
+        for f in rec["fields"]:
+            fid, kind = f["id"], f["kind"]
+            if kind in ("R",) or fid in rec.get("skipped", []):
+                continue
+            ds = S.defaults.get(fid, [])
+            res.evaluated(f"G:default:{prog.ident}:{fid}", True)
+            if kind == "O":
+                ds = ds + S.defaults.get(f"packed:{f['param']}", [])
+                if ds:
+                    res.add(_gen_finding("C08", "DEFAULT.packed-field-has-default", prog, 0, "default for packed field",
+                                         f"field `{fid}` has no default, yet `{ds[0]}` is assigned when it is absent"))
+                continue
+            move_targets = (move or "").startswith("targets:") and fid in (move or "").split(":")[1].split(",")
+            if move_targets:
+                continue
+            if len(set(ds)) != 1:
+                res.add(_gen_finding("C08", "DEFAULT.missing", prog, 0, f"{len(set(ds))} default expressions",
+                                     f"field `{fid}` (default kind {kind}): expected one default expression on the absent path, "
+                                     f"found {sorted(set(ds))}"))
+                continue
+            d = ds[0]
+            if kind in DEFAULT_EXPECT:
+                if d != DEFAULT_EXPECT[kind]:
+                    res.add(_gen_finding("C08", "DEFAULT.value", prog, 0, f"default {d}",
+                                         f"field `{fid}`: default is rendered as `{d}`, expected `{DEFAULT_EXPECT[kind]}`"))
+            elif kind == "DVO":
+                if d != f"dfl_{fid}" or ns.get(d, {}).get("tag") != f"default:{fid}":
+                    res.add(_gen_finding("C08", "DEFAULT.identity", prog, 0, f"default {d}".replace(fid, "F"),
+                                         f"field `{fid}`: the absent path must use the captured default object itself "
+                                         f"(`dfl_{fid}` bound to the very object), found `{d}` -> {ns.get(d, {}).get('tag')}"))
+            elif kind == "DFO":
+                if d != f"dfl_{fid}()" or ns.get(f"dfl_{fid}", {}).get("tag") != "factory:custom":
+                    res.add(_gen_finding("C08", "DEFAULT.factory-call", prog, 0, f"default {d}".replace(fid, "F"),
+                                         f"field `{fid}`: a factory default must be a call `dfl_{fid}()` evaluated in the function "
+                                         f"body on every load (fresh object), found `{d}` -> {ns.get('dfl_' + fid, {}).get('type')}"))
+    res.coverage["programs"] = res.coverage.get("programs", 0) + n
+    return n
+
+
+# ================================================================================================ literal renderer family
+def _eval_literal(expr: str):
+    """Evaluate the emitted literal text with a closed evaluator (no names except builtin constructors of the table)."""
+    node = ast.parse(expr, mode="eval").body
+
+    def ev(n):
+        if isinstance(n, ast.Constant):
+            return n.value
+        if isinstance(n, ast.UnaryOp) and isinstance(n.op, ast.USub):
+            return -ev(n.operand)
+        if isinstance(n, ast.Tuple):
+            return tuple(ev(x) for x in n.elts)
+        if isinstance(n, ast.List):
+            return [ev(x) for x in n.elts]
+        if isinstance(n, ast.Set):
+            return {ev(x) for x in n.elts}
+        if isinstance(n, ast.Dict):
+            return {ev(k): ev(v) for k, v in zip(n.keys, n.values)}
+        if isinstance(n, ast.Name):
+            if n.id in ("True", "False", "None"):
+                return {"True": True, "False": False, "None": None}[n.id]
+            if n.id in ("Ellipsis", "NotImplemented"):
+                return {"Ellipsis": Ellipsis, "NotImplemented": NotImplemented}[n.id]
+            import builtins
+            if hasattr(builtins, n.id):
+                return getattr(builtins, n.id)
+            raise ValueError(f"free name {n.id}")
+        if isinstance(n, ast.Call) and isinstance(n.func, ast.Name) and n.func.id in (
+                "set", "frozenset", "slice", "range", "bytearray", "list", "dict", "tuple"):
+            f = {"set": set, "frozenset": frozenset, "slice": slice, "range": range, "bytearray": bytearray, "list": list,
+                 "dict": dict, "tuple": tuple}[n.func.id]
+            return f(*[ev(a) for a in n.args])
+        if isinstance(n, ast.BinOp) and isinstance(n.op, (ast.Add, ast.Sub)) and isinstance(n.right, ast.Constant) \
+                and isinstance(n.right.value, complex):
+            l = ev(n.left)
+            return l + n.right.value if isinstance(n.op, ast.Add) else l - n.right.value
+        raise ValueError(f"unsupported literal syntax {type(n).__name__}")
+    return ev(node)
+
+
+def _encode(v):
+    t = type(v)
+    name = t.__module__ + "." + t.__qualname__
+    if v is None or v is Ellipsis or v is NotImplemented:
+        return {"t": name, "singleton": repr(v)}
+    if t in (bool, int, str):
+        return {"t": name, "v": v}
+    if t in (float, complex):
+        return {"t": name, "v": repr(v)}
+    if t in (bytes, bytearray):
+        return {"t": name, "v": list(v)}
+    if t in (tuple, list):
+        return {"t": name, "items": [_encode(x) for x in v]}
+    if t in (set, frozenset):
+        return {"t": name, "set": sorted((_encode(x) for x in v), key=lambda d: json.dumps(d, sort_keys=True))}
+    if t is dict:
+        return {"t": name, "pairs": [[_encode(k), _encode(x)] for k, x in v.items()]}
+    if t is slice or t is range:
+        return {"t": name, "start": _encode(v.start), "stop": _encode(v.stop), "step": _encode(v.step)}
+    if isinstance(v, type) or callable(v):
+        import builtins
+        n = getattr(v, "__name__", None)
+        if n and getattr(builtins, n, None) is v:
+            return {"t": name, "builtin": n}
+    return {"t": name, "opaque": repr(v)}
+
+
+FACTORY_EXPECT = {"builtins.list": [], "builtins.dict": {}, "builtins.tuple": (), "builtins.str": "", "builtins.bytes": b"",
+                  "builtins.NoneType": None, "builtins.set": set(), "builtins.int": 0, "builtins.float": 0.0,
+                  "builtins.bool": False, "builtins.frozenset": frozenset(), "builtins.bytearray": bytearray()}
+
+
+def literal_checks(repo: Repo, tier: str, res: CheckResult, seed: int, prop: str) -> int:
+    recs = run_child(repo, tier, seed, "literal")
+    n = 0
+    UT = "adaptix/_internal/code_tools/utils.py"
+    for r in recs:
+        if r.get("kind") == "literal":
+            n += 1
+            res.evaluated(f"G:literal:{r['value_type']}:{r['value_repr']}", True)
+            if r.get("error"):
+                res.add(Finding(prop, "LITERAL.renderer-raises", UT, "get_literal_expr", f"{r['value_type']}",
+                                f"get_literal_expr({r['value_repr']}) raised {r['error']}"))
+                continue
+            if r["expr"] is None:
+                continue  # not inlined: the object itself is captured (always exact)
+            try:
+                got = _encode(_eval_literal(r["expr"]))
+            except Exception as e:  # noqa: BLE001
+                res.add(Finding(prop, "LITERAL.not-a-literal", UT, "get_literal_expr", f"{r['value_type']}",
+                                f"get_literal_expr({r['value_repr']}) rendered `{r['expr']}`, which is not a closed literal "
+                                f"expression ({e})"))
+                continue
+            if len(res.samples) < 10:
+                res.sample({"value": r["value_repr"], "type": r["value_type"], "rendered": r["expr"], "verdict": "exact" if got == r["probe"] else "DIFFERENT"})
+            if got != r["probe"]:
+                res.add(Finding(prop, "LITERAL.look-alike", UT, "get_literal_expr",
+                                f"{r['value_type']} {_shape(r['probe'])}",
+                                f"get_literal_expr({r['value_repr']}) of type {r['value_type']} is rendered as `{r['expr']}`, which "
+                                f"evaluates to an object of type {got.get('t')} / another value: the loaded model holds a "
+                                f"look-alike of the declared default (or constant) instead of the value itself"))
+        elif r.get("kind") == "singleton":
+            n += 1
+            res.evaluated(f"G:singleton:{r['value_repr']}", True)
+            if r.get("error"):
+                res.add(Finding(prop, "LITERAL.singleton-raises", UT, "is_singleton", r["value_type"],
+                                f"is_singleton({r['value_repr']}) raised {r['error']}: omit_default with such a default "
+                                "breaks dumper creation"))
+            else:
+                want = r["value_repr"] in ("None", "Ellipsis", "NotImplemented", "True", "False") or r["value_type"].endswith((".IE", ".E"))
+                if bool(r["result"]) != want:
+                    res.add(Finding(prop, "LITERAL.singleton-wrong", UT, "is_singleton", r["value_repr"],
+                                    f"is_singleton({r['value_repr']}) = {r['result']}: identity comparison is used for a value "
+                                    "that is not a singleton (or equality for one that is)"))
+        elif r.get("kind") == "factory_literal":
+            n += 1
+            res.evaluated(f"G:factory:{r['factory']}", True)
+            if r.get("error"):
+                res.add(Finding(prop, "LITERAL.factory-raises", UT, "get_literal_from_factory", r["factory"],
+                                f"get_literal_from_factory({r['factory']}) raised {r['error']}"))
+            elif r["expr"] is not None:
+                want = FACTORY_EXPECT.get(r["factory"], "<no literal>")
+                try:
+                    got = _eval_literal(r["expr"])
+                    ok = want != "<no literal>" and type(got) is type(want) and got == want
+                except Exception:  # noqa: BLE001
+                    ok = False
+                if not ok:
+                    res.add(Finding(prop, "LITERAL.factory-look-alike", UT, "get_literal_from_factory", r["factory"],
+                                    f"factory {r['factory']} is inlined as `{r['expr']}`, which is not what calling it returns"))
+    return n
+
+
+def _shape(p: dict) -> str:
+    if "items" in p:
+        return f"len {len(p['items'])}"
+    if "start" in p:
+        return "start/stop/step"
+    return ""
